@@ -43,6 +43,8 @@ def run(ctx: core.Ctx):
             spec["hot_budget"] = rng.choice([3, 8, 20])
             out.append((spec, rng.randrange(10 ** 9), 0))
         return out
+    b2check.run_b2(ctx, lambda rng, th: [(gen.conn_second_session(rng, "idle"), rng.randrange(10 ** 9), rng.choice([0, 3])) for _ in range(3000 if th else 80)], ["C12re", "C08re"],
+                   label="connect() again on the same object: the second session idle beyond the keep-alive interval (monitor only)", accept=False)
     b2check.run_b2(ctx, jobs_hot, MONS, label="bytecode-level preemption inside connection_made, monitor only", accept=False)
     ctx.info["rule"] = ("sessions of 5..20 keep-alive intervals of virtual time with random command patterns and idle periods; each under a seeded schedule with extra line-level preemptions; a case = one schedule; "
                         "non-trivial = distinct (spec, seed)")
